@@ -104,6 +104,31 @@ fn main() {
     }
 
     let ncases = if thorough { 1500 } else { 320 };
+
+    // ---- RSA recipients: the encrypted session key is an MPI, so a value that begins with a zero octet is written shorter than
+    //      the modulus (about 1 encryption in 256): searched for over the sender's randomness, then decrypted
+    for pkx in pool.iter() {
+        let sub = &pkx.pk.public_subkeys[pkx.enc].key;
+        if sub.algorithm() != pgp::crypto::public_key::PublicKeyAlgorithm::RSA || pkx.locked_with.is_some() { continue; }
+        let ssub = &pkx.sk.secret_subkeys[pkx.enc].key;
+        let modlen = match sub.public_params() { pgp::types::PublicParams::RSA(p) => { use rsa::traits::PublicKeyParts; p.key.size() } _ => continue };
+        let sk: Vec<u8> = (0..16u8).map(|i| i.wrapping_mul(11).wrapping_add(3)).collect();
+        let raw: RawSessionKey = sk.clone().into();
+        let mut short = 0; let mut full = 0;
+        for seed in 0..6000u64 {
+            if short >= 2 && full >= 2 { break; }
+            let Ok(Ok(p)) = guarded(|| Pk::from_session_key_v3(Rng::new(7000 + seed), &raw, SymmetricKeyAlgorithm::AES128, sub)) else { continue; };
+            let Ok(pgp::types::PkeskBytes::Rsa { mpi }) = p.values() else { continue; };
+            let is_short = mpi.len() < modlen;
+            if (is_short && short >= 2) || (!is_short && full >= 2) { continue; }
+            if is_short { short += 1; } else { full += 1; }
+            let got = guarded(|| { use pgp::types::DecryptionKey; ssub.decrypt(&Password::empty(), p.values().ok()?, pgp::types::EskType::V3_4).ok()?.ok() });
+            let ok = matches!(&got, Ok(Some(PlainSessionKey::V3_4 { key, sym_alg })) if *sym_alg == SymmetricKeyAlgorithm::AES128 && key.as_ref() == &sk[..]);
+            cx.out.case("", &[], &["rsa-short-ciphertext".into(), pkx.name.clone(), seed.to_string(), mpi.len().to_string(), modlen.to_string()], if ok { "session key recovered" } else { "session key NOT recovered" }, Some(ok), if is_short { "rsa-ciphertext-shorter-than-modulus" } else { "rsa-ciphertext-full-length" });
+        }
+        if short == 0 { cx.out.case("", &[], &["rsa-short-ciphertext".into(), pkx.name.clone()], "no short ciphertext among 6000 encryptions", Some(false), "rsa-ciphertext-search-failed"); }
+    }
+
     for case in 0..ncases {
         let c = &conts[case % conts.len()];
         let k1: Vec<u8> = { let mut r = Rng::new(9000 + case as u64); r.bytes(c.k0.len()) };
